@@ -39,6 +39,8 @@ def make_history(rnd, n):
             if rnd.random() < 0.3: ops.append('tptest:%d' % t)
         for t in roots:
             if rnd.random() < 0.35: ops.append('tpwait:%d' % t); tpw.append(t)
+        if not tpw and roots and rnd.random() < 0.7:      # most epochs wait for at least one taskpool individually
+            t = rnd.choice(roots); ops.append('tpwait:%d' % t); tpw.append(t)
         ops.append('wait')
         epochs.append(dict(tps=mine, tpwaits=tpw, cbs=dict(cbs)))
     return ';'.join(ops), epochs
@@ -103,11 +105,12 @@ def run(ctx):
         def cfgs(vi, r2):
             out = []
             for c in range(4 if thorough else 2):
-                out.append(e1run.Cfg(sched=r2.choice(e1suite.SCHEDS), cores=r2.choice([1, 2, 4, 8] + ([16] if thorough else [])), ranks=2 if r2.random() < 0.15 else 1,
+                out.append(e1run.Cfg(sched=r2.choice(e1suite.SCHEDS), cores=r2.choice([2, 2, 4, 8] + ([1, 16] if thorough else [1])), ranks=2 if r2.random() < 0.15 else 1,
                                      place='rand', pseed=r2.randint(1, 99), scenario=script, seed=ctx.seed, sleep=(r2.choice([0, 100, 300]), 300),
                                      # short delays everywhere, or long delays (<= 3 ms) only at the scheduling sites (around the
                                      # completion callback / active_taskpools decrement / closing barrier), or none
-                                     yield_=r2.choice(['%d:300:0' % ctx.seed, '%d:300:50' % ctx.seed, '%d:1000:3000:8000' % ctx.seed, '%d:1000:3000:8000' % ctx.seed, None])))
+                                     yield_=r2.choice(['%d:300:0' % ctx.seed, '%d:300:50' % ctx.seed, '%d:1000:3000:8000' % ctx.seed, '%d:1000:3000:8000' % ctx.seed,
+                                                       '%d:1000:3000:8000' % ctx.seed, None])))
             return out
         S2 = e1suite.Suite(ctx, agg.oracles, profile='tiny'); S2.nk = progs[0].nk
         S2.post = lambda res, refs_, recs, finals, marks, r, cfg, feat, files, what: oracle(ctx, res, refs_, recs, marks, r, cfg, feat, files, what, epochs)
